@@ -1,6 +1,6 @@
 (* C05 — &del formulas are evaluated with linear dynamic logic on finite traces.  Property theorems only. *)
 From Coq Require Import List Bool Arith ZArith Lia.
-Require Import LDL.
+Require Import GenPrelude TheoryPrelude FromTheory DynPrelude FromDynamic LDL Leaf_theory DynReduce.
 (* the executable diamond (continuation style, one case per path constructor, as the translate_X methods of DiamondFormula) is the
    relational "some run of the path from k ends in a state satisfying c", for ALL paths *)
 Theorem C05_diamond : forall (A : Type) (h : nat) (T : trace A) (p : path A) (c : nat -> bool) (k : nat), k <= h ->
@@ -15,7 +15,38 @@ Proof. exact dsat_box. Qed.
 (* runs never leave the trace *)
 Theorem C05_runs_inside : forall (A : Type) (h : nat) (T : trace A) (p : path A) (k j : nat), run A h T p k j -> k <= j /\ (k <= h -> j <= h).
 Proof. exact run_mono. Qed.
+(* ---- the implementation side: what DiamondFormula / BoxFormula build (tables REGENERATED from theory/body.py) ---- *)
+(* every construction of translate_ChoicePath / SequencePath / CheckPath / KleeneStarPath / SkipPath, for both modalities and for ALL
+   paths, has the LDLf value of the modality it replaces *)
+Theorem C05_constructions_valid : forall (A : Type) (h : nat) (T : trace A) (f g : bf A), reduce A f = Some g ->
+  forall k, k <= h -> bsat A h T g k = bsat A h T f k.
+Proof. exact reduce_valid. Qed.
+(* whatever truth values the solver gives to the literals of the formula objects: if none of the emitted constraints (clause tables
+   regenerated from theory/formula.py and body.py) is violated, every formula whose iteration bodies consume a step has its LDLf
+   value at every state of the trace *)
+Theorem C05_translation_determines_value : forall (A : Type) (h : nat) (T : trace A) (v : bf A -> nat -> bool),
+  (forall f k, wf A f = true -> k <= h -> node_ok A h T v f k) ->
+  forall f, wf A f = true -> forall k, k <= h -> v f k = bsat A h T f k.
+Proof. exact dyn_unique. Qed.
+(* ... and the LDLf semantics itself is such an assignment (the hypothesis above is satisfiable; no formula is over-constrained) *)
+Theorem C05_semantics_is_a_solution : forall (A : Type) (h : nat) (T : trace A) (f : bf A) (k : nat), k <= h -> node_ok A h T (bsat A h T) f k.
+Proof. exact dyn_semantics_is_a_solution. Qed.
+(* the formula objects built for the specification's dynamic formulas (with &final as the generated [skip]false) have the value
+   the oracle computes *)
+Theorem C05_objects_match_spec : forall (A : Type) (h : nat) (T : trace A) (d : dform A) (k : nat), k <= h ->
+  bsat A h T (emb A d) k = dsat A h T d k.
+Proof. exact emb_sat. Qed.
+(* non-vacuity: a diamond over an iteration of an atom step is well-formed, reducible and has both truth values on concrete traces *)
+Example C05_example_wf : wf nat (FDia nat (Star nat (Seq nat (Test nat (TAtom nat 0)) (Skip nat))) (FAtom nat 1)) = true /\
+  (exists g, reduce nat (FDia nat (Star nat (Seq nat (Test nat (TAtom nat 0)) (Skip nat))) (FAtom nat 1)) = Some g) /\
+  bsat nat 2 (fun k a => match a with 0 => k <? 2 | _ => k =? 2 end) (FDia nat (Star nat (Seq nat (Test nat (TAtom nat 0)) (Skip nat))) (FAtom nat 1)) 0 = true /\
+  bsat nat 2 (fun k a => match a with 0 => k <? 1 | _ => k =? 2 end) (FDia nat (Star nat (Seq nat (Test nat (TAtom nat 0)) (Skip nat))) (FAtom nat 1)) 0 = false.
+Proof. repeat split; [eexists; reflexivity]. Qed.
 Print Assumptions C05_diamond.
 Print Assumptions C05_dia_formula.
 Print Assumptions C05_box_formula.
 Print Assumptions C05_runs_inside.
+Print Assumptions C05_constructions_valid.
+Print Assumptions C05_translation_determines_value.
+Print Assumptions C05_semantics_is_a_solution.
+Print Assumptions C05_objects_match_spec.
